@@ -146,7 +146,12 @@ TEMPLATES = [
     "\\x -> F\"{{{U}}} and {{x}}\"",
     "\\x -> {{{U}: x}}",
     "\\x -> [{U}, -(x), -(1), - {U}]",
-    "\\x -> (x[0:{U}] if (x is list) else {U})" if False else "\\x -> (if (x is list) x[0:{U}] else {U})",
+    # a freeze nested inside frozen code snapshots the enclosing code's own locals / parameters when IT runs
+    "\\x -> (y := x; g := freeze \\-> y + {U}; y = 99; g())",
+    "\\x -> (g := freeze \\q -> x + q + {U}; x = 100; g(1))",
+    "\\x -> (y := 1; g := freeze \\-> (y = 5; y); g() + {U})",
+    "\\x -> (fs := (for (i <- [1, 2, 3]) yield freeze \\-> i * 10 + x); x = 7; (for (g <- fs) yield g()) ++ [{U}])",
+    "\\x -> x[0:{U}] if (x is list) else {U})" if False else "\\x -> (if (x is list) x[0:{U}] else {U})",
 ]
 
 
